@@ -178,10 +178,13 @@ def run_tg_boundaries(case):
     n = len(samples)
     dur = n / rate
     wav = mk_wav(samples, width, rate)
-    tg = p.Textgrid(0, dur)
+    last = max([j for _, j, _ in case["intervals"]] + [i for i, _ in case["points"]] + [0])
+    short = bool(case.get("short_tg")) and 0 < last < n
+    tg_end = last / rate if short else dur  # short: the annotation stops at its last boundary, before the recording does
+    tg = p.Textgrid(0, tg_end)
     ents = [p.Interval(i / rate, j / rate, l) for i, j, l in case["intervals"]]
-    tg.addTier(p.IntervalTier("iv", ents, 0, dur))
-    tg.addTier(p.PointTier("pt", [p.Point(i / rate, l) for i, l in case["points"]], 0, dur))
+    tg.addTier(p.IntervalTier("iv", ents, 0, tg_end))
+    tg.addTier(p.PointTier("pt", [p.Point(i / rate, l) for i, l in case["points"]], 0, tg_end))
     before = snap_tg(tg)
     try:
         with quiet():
@@ -205,7 +208,7 @@ def run_tg_boundaries(case):
         for e in ta["entries"]:
             for x in e[:-1]:
                 check_crossing_value(x, samples, rate, True, f"tgBoundariesToZeroCrossings tier {tb['name']} entry {e}")
-    return {"classes": ["returned"], "nontrivial": True}
+    return {"classes": ["returned"] + (["textgrid_shorter_than_recording"] if short else []), "nontrivial": True}
 
 
 def run_splice(case):
@@ -221,10 +224,23 @@ def run_splice(case):
     ents = [[i / rate, j / rate, l] for i, j, l in case["intervals"]]
     tg.addTier(p.IntervalTier("target", [p.Interval(*e) for e in ents], 0, dur))
     pts = [[i / rate, l] for i, l in case["points"]]
+    t_ins = case["insert"] / rate
+    near = False
+    if case.get("near") and t_ins > 0:
+        # what ends on the insertion time ends one unit in the last place before it instead: it ended before the insertion point
+        just_before = math.nextafter(t_ins, -math.inf)
+        for e in ents:
+            if e[1] == t_ins and e[0] < just_before:
+                e[1], near = just_before, True
+        for q in pts:
+            if q[0] == t_ins:
+                q[0], near = just_before, True
+        if near:
+            tg = p.Textgrid(0, dur)
+            tg.addTier(p.IntervalTier("target", [p.Interval(*e) for e in ents], 0, dur))
     tg.addTier(p.PointTier("pt", [p.Point(*e) for e in pts], 0, dur))
     before = snap_tg(tg)
     align = case["align"]
-    t_ins = case["insert"] / rate
     t_stop = None if case["stop"] is None else case["stop"] / rate
     what = f"audioSplice(insertStart={t_ins!r}, insertStop={t_stop!r}, align={align})"
     aligned_start = t_ins
@@ -313,6 +329,8 @@ def run_splice(case):
                 if not tie2 and from_bytes(a2.frames, width)[j0:j0 + len(seg2)] != seg2:
                     raise Violation("interval-does-not-cover-inserted-audio", f"second splice at {t2!r} (beyond the original duration {dur}): the audio at the new interval {ents2[0]} is not the inserted segment")
                 cl.add("second_splice_beyond_original_duration")
+    if near:
+        cl.add("entry_ends_one_ulp_before_insertion")
     if len({i for i, _ in case["points"]}) < len(case["points"]):
         cl.add("coinciding_points")
     if any(i == case["insert"] for i, _ in case["points"]):
@@ -380,7 +398,7 @@ def tgb_cases(draw):
     ivs = [[cuts[2 * i], cuts[2 * i + 1], f"w{i}"] for i in range(k)]
     pts = [[i, f"p{q}"] for q, i in enumerate(sorted(draw(st.lists(st.integers(0, n), max_size=3, unique=True))))]
     return {"width": width, "rate": rate, "samples": s, "intervals": ivs, "points": pts,
-            "adj_points": draw(st.booleans()), "adj_intervals": draw(st.booleans())}
+            "adj_points": draw(st.booleans()), "adj_intervals": draw(st.booleans()), "short_tg": draw(st.booleans())}
 
 
 @st.composite
@@ -404,13 +422,14 @@ def splice_cases(draw):
         if stop <= ins:
             stop = None
     return {"width": width, "rate": rate, "samples": s, "segment": seg, "intervals": ivs, "points": pts,
-            "insert": ins, "stop": stop, "align": draw(st.booleans()), "second": draw(st.one_of(st.none(), st.integers(0, 19)))}
+            "insert": ins, "stop": stop, "align": draw(st.booleans()), "second": draw(st.one_of(st.none(), st.integers(0, 19))),
+            "near": draw(st.booleans())}
 
 
 CHECKS = [
     Check("zero_crossing", run_zero_crossing, strategy=lambda tier: zc_cases(), quick_n=4000, thorough_n=40000),
     Check("search_edit_search", run_search_edit_search, strategy=lambda tier: ses_cases(), quick_n=300, thorough_n=5000),
-    Check("tg_boundaries", run_tg_boundaries, strategy=lambda tier: tgb_cases(), quick_n=300, thorough_n=5000),
-    Check("splice", run_splice, strategy=lambda tier: splice_cases(), quick_n=500, thorough_n=8000),
+    Check("tg_boundaries", run_tg_boundaries, strategy=lambda tier: tgb_cases(), quick_n=600, thorough_n=5000),
+    Check("splice", run_splice, strategy=lambda tier: splice_cases(), quick_n=1500, thorough_n=15000),
 ]
 KNOWN = {}
